@@ -644,6 +644,26 @@ pub fn gen_c15w(out: &mut impl Write, seed: u64, thorough: bool) {
             let n = r.bytes(nl);
             writeln!(out, "loc.seal {} {} {} {} {} {}", be.name(), hex(&key), hex(&n), hex(&msg), hex(&f), hex(&a)).unwrap();
             writeln!(out, "m.spec.loc.seal {} {} {} {} {} {} | loc.open {} {} $ {} want=ok:{}", be.name(), hex(&key), hex(&n), hex(&msg), hex(&f), hex(&a), be.name(), hex(&key), hex(&a), hex(&msg)).unwrap();
+            // writers must not carry anything over from a *rejected* operation: a failing open directly before the next
+            // seal / sign / open on the same thread (a reused scratch buffer that is only cleared on success shows here)
+            if ml % 10 == 5 {
+                if let Some(tok) = seal_local(be, &key, &n, &msg, &f, &a) {
+                    let mut t = tok.into_bytes(); let k = t.len() - 1; t[k] = if t[k] == b'A' { b'B' } else { b'A' };
+                    emit_open(out, be, &key, &String::from_utf8(t).unwrap(), &a, "err");
+                    writeln!(out, "loc.seal {} {} {} {} {} {}", be.name(), hex(&key), hex(&n), hex(&msg), hex(&f), hex(&a)).unwrap();
+                }
+                if be != Be::V1 || ml % 40 == 5 {
+                    if let Some(tok) = sign_own(be, &sk, &msg, &f, &a) {
+                        let hdr = format!("v{}.public.", be.version());
+                        let mut payload = unb64(tok[hdr.len()..].split('.').next().unwrap());
+                        let k = payload.len() - 1; payload[k] ^= 1;
+                        let mut bad = format!("{hdr}{}", b64(&payload));
+                        if !f.is_empty() { bad.push('.'); bad.push_str(&b64(&f)); }
+                        emit_popen(out, be, &pk, &bad, &a, "err");
+                        emit_popen(out, be, &pk, &tok, &a, &format!("ok:{}", hex(&msg)));
+                    }
+                }
+            }
             if be != Be::V1 || ml % 8 == 0 {
                 let rnd = r.bytes(48);
                 writeln!(out, "m.pub.sign {} {} {} {} {} {} | pub.open {} {} $ {} want=ok:{}", be.name(), hex(&sk), hex(&msg), hex(&f), hex(&a), hex(&rnd), be.name(), hex(&pk), hex(&a), hex(&msg)).unwrap();
